@@ -540,7 +540,7 @@ def extract(text: str, stdlib):
                     items.append({"k": "use", "name": a.arg, "line": a.lineno, "start": a.col_offset,
                                   "end": a.col_offset + len(a.arg.encode("utf-8"))})
             items.append(body_item(st.body, declared, fn, st.lineno))
-        if fn.startswith("test_"):
+        if fn.startswith("test_") and dec is None:
             declared = {"self", "request"}
             for a in args:
                 declared.add(a.arg)
